@@ -380,6 +380,7 @@ def run_property(pid, tier, seed):
             "streams": report["streams"],
             "constants_from_source": consts,
             "definitions_translated_from_source": translated,
+            "translator_route_unavailable": [t for t in translated if "UNTRANSLATED" in t],
             "broken": broken,
             "explanation": cfg.get("explanation", ""),
         },
